@@ -23,7 +23,8 @@ POINTS_RETRACT = [("TRAVEL", "O1"), ("TRAVEL", "O2"), ("TRAVEL", "I1"), ("TRAVEL
 AT_AXIS = [("TRAVEL", "O2"), ("TRAVEL", "I1"), ("XONLY", "I1"), ("YONLY", "I1"), ("XONLY", "O2"), ("PRINT", "I2"),
            ("ZMOVE", 2), ("ZMOVE", 1), ("RETRACT",), ("RECOVER",), ("TRACKPROBE",)] + AT
 ARC_ADD = [("TRAVEL", "O1"), ("TRAVEL", "O2"), ("TRAVEL", "O3"), ("TRAVEL", "I1"), ("PRINT", "I2"), ("PRINT", "O2"),
-           ("ARC", "clear"), ("ARC", "cross"), ("ARC", "under"), ("ARC", "into"), ("ADD", "R2", "r2"),
+           ("ARC", "clear"), ("ARC", "cross"), ("ARC", "under"), ("ARC", "into"), ("ARC", "into", "EZ"),
+           ("ARC", "under", "E"), ("ADD", "R2", "r2"),
            ("ADD", "R3", "r3"), ("ZMOVE", 2), ("ZMOVE", 1), ("RAW", "M117 hi"), ("RAW", "M999")]
 MODES = [("TRAVEL", "O2"), ("TRAVEL", "I1"), ("TRAVEL", "O1"), ("PRINT", "I2"), ("PRINT", "O2"), ("TRAVEL", "H"),
          ("RETRACT",), ("RECOVER",), ("REL",), ("ABS",), ("INCH",), ("MM",), ("ZMOVE", 2), ("XONLY", "I1"),
